@@ -105,7 +105,7 @@ where
                 let _ = std::mem::replace(&mut self.elements[*size - (i + 1)], new_el);
                 Ok(())
             }
-            Some(diff) => Err(diff + 1),
+            Some(diff) => Err(diff.saturating_add(1)),
         }
     }
 
